@@ -2,10 +2,10 @@ package lens
 
 import (
 	"context"
-	"os"
 	"errors"
 	"fmt"
 	"math/rand/v2"
+	"os"
 	"strings"
 
 	"github.com/notaryproject/notation-go"
